@@ -7,6 +7,12 @@ package main
 //                                        value inside its type (see c07Value); C/U/E = CreatedAt /
 //                                        UpdatedAt / ExpiredAt in nanoseconds, 0 = field absent
 //        del KEY                         Gateway.Delete
+//        patch KEY E                     Gateway.PatchTreasures of one key (no CreateIfNotExist): one INC on the
+//                                        body, PatchMeta per E: nanoseconds = SetExpiredAt, clear = ClearExpiredAt,
+//                                        - = no meta; reply patched | notfound | mismatch
+//        patchexp E                      Gateway.PatchExpiredTreasures, HowMany 0, the same op and meta; reply: the
+//                                        claimed keys in claim order
+//        shiftmatch IDX ORD N FT TT      Gateway.ShiftMatchingTreasures without filters (IDX a key/time index)
 //        q IDX ORD FROM LIMIT FT TT VIA  Gateway.GetByIndex (VIA=u) or GetByIndexStream without
 //                                        filters (VIA=s); IDX ∈ key|created|updated|expire|<value type>;
 //                                        ORD ∈ asc|desc; FT/TT nanoseconds or '-'
@@ -23,9 +29,12 @@ import (
 	"os"
 	"strconv"
 	"strings"
+	"sync/atomic"
+	"time"
 
 	"github.com/hydraide/hydraide/app/core/settings"
 	"github.com/hydraide/hydraide/app/name"
+	"github.com/hydraide/hydraide/app/verifhook"
 	hydrapb "github.com/hydraide/hydraide/sdk/go/hydraidego/v3/hydraidepbgo"
 	"google.golang.org/grpc/metadata"
 	"google.golang.org/protobuf/types/known/timestamppb"
@@ -33,7 +42,7 @@ import (
 
 func init() { Register("C07", Domain{Gen: c07Gen, Run: c07Run}) }
 
-var c07Types = []string{"i8", "i16", "i32", "i64", "u8", "u16", "u32", "u64", "f32", "f64", "str", "void", "bool"}
+var c07Types = []string{"i8", "i16", "i32", "i64", "u8", "u16", "u32", "u64", "f32", "f64", "str", "void", "bool", "bytes"}
 var c07ValueIdx = []string{"i8", "i16", "i32", "i64", "u8", "u16", "u32", "u64", "f32", "f64", "str"}
 var c07TimeIdx = []string{"created", "updated", "expire"}
 
@@ -98,6 +107,9 @@ func c07Value(kv *hydrapb.KeyValuePair, typ string, v int64) bool {
 	case "void":
 		x := true
 		kv.VoidVal = &x
+	case "bytes":
+		// a msgpack body behind the C7 00 magic: {"n": int64 v} — what the patch RPCs work on
+		kv.BytesVal = append([]byte{0xC7, 0x00, 0x81, 0xa1, 'n'}, c07MpInt64(v)...)
 	default:
 		return false
 	}
@@ -105,6 +117,15 @@ func c07Value(kv *hydrapb.KeyValuePair, typ string, v int64) bool {
 }
 
 const c07I64Step = 10000000000
+
+// msgpack int64 (INC wants the delta and the target in the same numeric class)
+func c07MpInt64(v int64) []byte {
+	out := []byte{0xd3, 0, 0, 0, 0, 0, 0, 0, 0}
+	for i := 0; i < 8; i++ {
+		out[8-i] = byte(uint64(v) >> (8 * i))
+	}
+	return out
+}
 
 func c07Unsigned(t string) bool { return strings.HasPrefix(t, "u") }
 
@@ -180,14 +201,23 @@ func c07Gen(rng *rand.Rand, tier string, w *bufio.Writer) {
 	fmt.Fprintln(w, "case 9\nset k1 i64 1 3000000000 0 0\nset k2 i64 2 3000000001 0 0\nset k3 i64 3 3999999999 0 0\nset k4 i64 4 4000000000 0 0\nset k5 i64 5 3000000000 0 0\nq created asc 0 0 3000000001 4000000000 u\nq created desc 0 0 3000000000 3999999999 u\nq created asc 0 0 3000000000 3000000001 s\nq created desc 0 0 3999999999 - u\nq created asc 0 0 - 3000000001 u")
 	// 10: Increment moves an int64 value and the expiry inside built indexes; a reload drops them
 	fmt.Fprintln(w, "case 10p\nset k1 i64 1 1000000000 0 0\nset k2 i64 2 2000000000 0 3000000000\nq i64 asc 0 0 - - u\nq expire asc 0 0 - - u\ninc k1 3 5000000000\ninc k3 1 0\nq i64 asc 0 0 - - u\nq expire desc 0 0 - - u\nreload\nq i64 desc 0 0 - - u\nq created asc 0 0 - - u\nset k1 i64 0 9000000000 0 0\nq created asc 0 0 - - u\nq expire asc 0 0 - - u\nshiftexp\nq key asc 0 0 - - u\nshiftexp")
-	for c := 11; c < cases; c++ {
+	// 11: two first readers of an index that is not built yet (forced schedule through the hook)
+	fmt.Fprintln(w, "case 11\nset k1 i64 1 1000000000 0 0\nset k2 i64 2 2000000000 0 0\nrace key asc\nrace created desc\nrace created asc\nrace updated asc")
+	// 12: a patch clears / moves the expiry of a record filed in the built expiration index
+	fmt.Fprintln(w, "case 12\nset k1 bytes 0 0 0 3000000000\nset k2 bytes 0 0 0 5000000000\nset k3 bytes 0 0 0 0\nq expire asc 0 0 - - u\npatch k1 clear\nq expire asc 0 0 - - u\nq expire desc 0 0 - - u\npatch k3 4000000000\npatch k2 7000000000\nq expire asc 0 0 - - u\nq expire desc 0 0 - - s\npatch k9 clear\nset k4 i64 97 0 0 1000000000\npatch k4 clear\nq expire asc 0 0 - - u")
+	// 13: expired-patch after a reload (the treasures' changed-flags are clear), ops only, then again;
+	// then with a meta that moves / clears the expiry
+	fmt.Fprintln(w, "case 13p\nset e1 bytes 0 0 0 2000000000\nset e2 bytes 0 0 0 3000000000\nset e3 i64 97 0 0 1000000000\nset f1 bytes 0 0 0 0\nreload\npatchexp -\nq expire asc 0 0 - - u\nq expire desc 0 0 - - u\npatchexp -\nreload\npatchexp 6000000000\nq expire asc 0 0 - - u\nreload\npatchexp clear\nq expire asc 0 0 - - u\nq expire desc 0 0 - - u\nshiftexp\nq key asc 0 0 - - u")
+	// 14: ShiftMatching: first N of the key index, a window of a time index, everything
+	fmt.Fprintln(w, "case 14\nset k1 i64 97 1000000000 5000000000 0\nset k2 i64 98 2000000000 4000000000 3000000000\nset k3 str 1 3000000000 3000000000 0\nset k4 bytes 2 3000000000 0 1000000000\nset k5 i64 99 0 2000000000 0\nq created asc 0 0 - - u\nq key desc 0 0 - - u\nshiftmatch key desc 2 - -\nq key asc 0 0 - - u\nq created desc 0 0 - - u\nshiftmatch created asc 0 2000000000 3000000001\nq created asc 0 0 - - u\nq updated asc 0 0 - - u\nshiftmatch updated desc 0 - -\nq key asc 0 0 - - u")
+	for c := 15; c < cases; c++ {
 		persistent := c%3 == 0
 		if persistent {
 			fmt.Fprintf(w, "case %dp\n", c)
 		} else {
 			fmt.Fprintf(w, "case %d\n", c)
 		}
-		theme := rng.Intn(10)
+		theme := rng.Intn(12)
 		// type palette of the case
 		var types []string
 		switch {
@@ -195,8 +225,10 @@ func c07Gen(rng *rand.Rand, tier string, w *bufio.Writer) {
 			types = []string{c07ValueIdx[rng.Intn(len(c07ValueIdx))]}
 		case theme < 7: // int64 only: the value index that is maintained with its own comparator
 			types = []string{"i64"}
-		default: // mixed
+		case theme < 10: // mixed
 			types = []string{c07Types[rng.Intn(len(c07Types))], c07Types[rng.Intn(len(c07Types))], "i64"}
+		default: // msgpack bodies (what the patch RPCs work on), now and then next to int64
+			types = []string{"bytes", "bytes", []string{"bytes", "i64"}[rng.Intn(2)]}
 		}
 		if persistent {
 			// bool false / void are zero-like on disk (C05): keep them out of cases that reload
@@ -210,9 +242,10 @@ func c07Gen(rng *rand.Rand, tier string, w *bufio.Writer) {
 		pAbsent := []int{0, 15, 50}[rng.Intn(3)]
 		// indexes this case concentrates on (so that they are built early and maintained)
 		fv := types[0]
-		if fv == "void" || fv == "bool" {
+		if fv == "void" || fv == "bool" || fv == "bytes" {
 			fv = "i64"
 		}
+		bodies := types[0] == "bytes"
 		focus := []string{"key", c07TimeIdx[rng.Intn(3)], c07TimeIdx[rng.Intn(3)], fv}
 		if rng.Intn(3) == 0 {
 			focus = append(focus, c07ValueIdx[rng.Intn(len(c07ValueIdx))])
@@ -278,6 +311,35 @@ func c07Gen(rng *rand.Rand, tier string, w *bufio.Writer) {
 				fmt.Fprintf(w, "inc %s %d %d\n", k, d, c07TS(rng, 60))
 			case r < 62 && persistent:
 				fmt.Fprintln(w, "reload")
+			case r >= 66 && r < 78 && (bodies || c%5 == 0):
+				// the claim paths: patch one key / patch every expired record / shift by index
+				e := []string{"-", "-", "clear", strconv.FormatInt(c07TS(rng, 0), 10)}[rng.Intn(4)]
+				switch rng.Intn(5) {
+				case 0, 1:
+					fmt.Fprintf(w, "patch k%02d %s\n", rng.Intn(nKeys), e)
+				case 2, 3:
+					fmt.Fprintf(w, "patchexp %s\n", e)
+				default:
+					idx := []string{"key", "created", "updated", "expire"}[rng.Intn(4)]
+					n, ft, tt := 0, "-", "-"
+					if idx == "key" {
+						n = rng.Intn(3) // (a count that cuts a run of equal timestamps would leave the choice to the sort)
+					} else if rng.Intn(3) != 0 {
+						ft = strconv.FormatInt(int64(rng.Intn(6))*1000000000+c07Nanos[rng.Intn(len(c07Nanos))], 10)
+						tt = strconv.FormatInt(int64(4+rng.Intn(7))*1000000000+c07Nanos[rng.Intn(len(c07Nanos))], 10)
+					}
+					fmt.Fprintf(w, "shiftmatch %s %s %d %s %s\n", idx, []string{"asc", "desc"}[rng.Intn(2)], n, ft, tt)
+					for k := range live {
+						if persistent {
+							retired[k] = true
+						}
+						delete(live, k)
+						delete(incSum, k)
+					}
+				}
+			case r < 66 && r >= 64 && c%4 == 0:
+				idx := []string{"key", "created", "updated", "expire", fv}[rng.Intn(5)]
+				fmt.Fprintf(w, "race %s %s\n", idx, []string{"asc", "desc"}[rng.Intn(2)])
 			case r < 64:
 				// ShiftExpiredTreasures: every timestamp of the run is in the past, so this returns the
 				// whole expiration index in order and deletes those records
@@ -391,8 +453,148 @@ func c07Run(in *bufio.Scanner, w *bufio.Writer) {
 					return "nilnil"
 				}
 				return "ok" // a content type other than int64 is an error and changes nothing
+			case f[0] == "race" && len(f) == 3:
+				// two first readers of index IDX (full read, order ORD): the first is held at the hook in
+				// buildBeacon (flag raised, slice not filled); the second runs meanwhile
+				it, ok := c07IndexType(f[1])
+				if !ok || (f[2] != "asc" && f[2] != "desc") {
+					return "bad-op"
+				}
+				ord := hydrapb.OrderType_ASC
+				if f[2] == "desc" {
+					ord = hydrapb.OrderType_DESC
+				}
+				read := func() string {
+					resp, err := rig.GW.GetByIndex(ctx, &hydrapb.GetByIndexRequest{IslandID: 1, SwampName: swampName, IndexType: it, OrderType: ord})
+					if err != nil {
+						return "err " + c07ErrClass(err)
+					}
+					if resp == nil {
+						return "nilnil"
+					}
+					var keys []string
+					for _, t := range resp.GetTreasures() {
+						keys = append(keys, t.GetKey())
+					}
+					return strings.Join(keys, ",")
+				}
+				var armed int32 = 1
+				reached := make(chan struct{}, 1)
+				release := make(chan struct{})
+				verifhook.SetHandler(func(name string, args ...any) {
+					if name == "beacon.build" && atomic.CompareAndSwapInt32(&armed, 1, 0) {
+						reached <- struct{}{}
+						<-release
+					}
+				})
+				first := make(chan string, 1)
+				go func() { first <- read() }()
+				r1, r2 := "", ""
+				select {
+				case <-reached:
+					second := make(chan string, 1)
+					go func() { second <- read() }()
+					got := false
+					select {
+					case r2 = <-second: // answered while the first reader is still inside the build
+						got = true
+					case <-time.After(60 * time.Millisecond): // it waits for the build: let the first go on
+					}
+					close(release)
+					r1 = <-first
+					if !got {
+						r2 = <-second
+					}
+				case r1 = <-first: // the index was built already: no window
+					atomic.StoreInt32(&armed, 0)
+					close(release)
+					r2 = read()
+				}
+				verifhook.SetHandler(nil)
+				return "r2=" + r2 + " r1=" + r1
 			case f[0] == "shiftexp" && len(f) == 1:
 				resp, err := rig.GW.ShiftExpiredTreasures(ctx, &hydrapb.ShiftExpiredTreasuresRequest{IslandID: 1, SwampName: swampName, HowMany: 0})
+				if err != nil {
+					return "err " + c07ErrClass(err)
+				}
+				if resp == nil {
+					return "nilnil"
+				}
+				var keys []string
+				for _, t := range resp.GetTreasures() {
+					keys = append(keys, t.GetKey())
+				}
+				return "r " + strings.Join(keys, ",")
+			case (f[0] == "patch" && len(f) == 3) || (f[0] == "patchexp" && len(f) == 2):
+				var meta *hydrapb.PatchMeta
+				switch e := f[len(f)-1]; e {
+				case "-":
+				case "clear":
+					meta = &hydrapb.PatchMeta{ClearExpiredAt: true}
+				default:
+					v, err := strconv.ParseInt(e, 10, 64)
+					if err != nil {
+						return "bad-op"
+					}
+					if v != 0 {
+						meta = &hydrapb.PatchMeta{SetExpiredAt: c07TSpb(v)}
+					}
+				}
+				ops := []*hydrapb.PatchOp{{Op: hydrapb.PatchOp_INC, Path: "n", Value: c07MpInt64(1)}}
+				if ok, err := rig.Zeus.GetHydra().IsExistSwamp(1, name.Load(swampName)); err != nil || !ok {
+					// (PatchTreasures would summon an empty swamp into being; the case has nothing alive)
+					if f[0] == "patch" {
+						return "notfound"
+					}
+					return "r "
+				}
+				if f[0] == "patch" {
+					resp, err := rig.GW.PatchTreasures(ctx, &hydrapb.PatchTreasuresRequest{IslandID: 1, SwampName: swampName,
+						Patches: []*hydrapb.TreasurePatch{{Key: f[1], Ops: ops, Meta: meta}}})
+					if err != nil {
+						return "err " + c07ErrClass(err)
+					}
+					if resp == nil || len(resp.GetResults()) != 1 {
+						return "nilnil"
+					}
+					switch st := resp.GetResults()[0].GetStatus(); st {
+					case hydrapb.PatchResult_PATCHED:
+						return "patched"
+					case hydrapb.PatchResult_KEY_NOT_FOUND:
+						return "notfound"
+					case hydrapb.PatchResult_TYPE_MISMATCH:
+						return "mismatch"
+					default:
+						return "status " + st.String()
+					}
+				}
+				resp, err := rig.GW.PatchExpiredTreasures(ctx, &hydrapb.PatchExpiredTreasuresRequest{IslandID: 1, SwampName: swampName,
+					HowMany: 0, Ops: ops, Meta: meta})
+				if err != nil {
+					return "err " + c07ErrClass(err)
+				}
+				if resp == nil {
+					return "nilnil"
+				}
+				var keys []string
+				for _, t := range resp.GetPatched() {
+					keys = append(keys, t.GetKey())
+				}
+				return "r " + strings.Join(keys, ",")
+			case f[0] == "shiftmatch" && len(f) == 6:
+				it, ok := c07IndexType(f[1])
+				n, e1 := strconv.ParseInt(f[3], 10, 32)
+				ft, ok1 := c07OptTS(f[4])
+				tt, ok2 := c07OptTS(f[5])
+				if !ok || e1 != nil || !ok1 || !ok2 || (f[2] != "asc" && f[2] != "desc") {
+					return "bad-op"
+				}
+				ord := hydrapb.OrderType_ASC
+				if f[2] == "desc" {
+					ord = hydrapb.OrderType_DESC
+				}
+				resp, err := rig.GW.ShiftMatchingTreasures(ctx, &hydrapb.ShiftMatchingTreasuresRequest{IslandID: 1, SwampName: swampName,
+					IndexType: it, OrderType: ord, HowMany: int32(n), FromTime: ft, ToTime: tt})
 				if err != nil {
 					return "err " + c07ErrClass(err)
 				}
